@@ -113,7 +113,7 @@ func (c *Ctx) frameMaxObs() []core.Ob {
 	in := c.reachPred([]string{"net/packet.(*Packet).UnPack"}, "net/packet")
 	t := c.TLG()
 	for _, s := range t.Sinks {
-		if !in(s.Fn) || !strings.HasPrefix(s.Kind, "make(") {
+		if !in(s.Fn) || !(strings.HasPrefix(s.Kind, "make(") || strings.HasPrefix(s.Kind, "inflate")) {
 			continue
 		}
 		ob := core.Ob{Rule: "R-TLG-MAX", Key: s.Key() + "<=MaxDataLength", Pos: c.P.Pos(s.Pos), Func: core.FnName(s.Fn), Armed: true,
@@ -163,9 +163,11 @@ func init() {
 	Props["C07"] = PropDef{
 		Explanation: "R-TLG on the frame reader (functions of net/packet reachable from (*Packet).UnPack): declared lengths are proven non-negative before io.CopyN / allocation / re-slicing, and every payload allocation is proven <= MaxDataLength (R-TLG-MAX). Not decided: equality of id/payload after a round trip, the 5-byte length patch arithmetic, zlib conformance.",
 		Run: func(c *Ctx) []core.Ob {
-			in := c.reachPred([]string{"net/packet.(*Packet).UnPack"}, "net/packet")
+			in := c.reachPred([]string{"net/packet.(*Packet).UnPack", "net/packet.(*Packet).Pack"}, "net/packet")
 			obs := c.TLGObs(in, in, false)
 			obs = append(obs, c.frameMaxObs()...)
+			obs = append(obs, c.Pools("net/packet")...)
+			obs = append(obs, c.ThresholdPlumbing()...)
 			obs = append(obs, c.rootObs("R-TLG", "net/packet.(*Packet).UnPack", "net/packet.(*Packet).Pack")...)
 			return obs
 		},
